@@ -118,6 +118,11 @@ def value_inv(ty, t) -> List[Any]:
                 + [S.SeqNL.len(lsq) == n,
                    z3.ForAll([j], z3.Implies(z3.And(j >= 0, j < n),
                                              S.SeqNL.arr(lsq)[j] == S.Node.f_label(arr[j])))])
+    if ty == "Factor":
+        sq = S.fac_domains(t)
+        return seq_inv(S.SeqDomain.len(sq), S.SeqDomain.arr(sq), "Domain")
+    if ty == "Domain":
+        return [S.dom_size(t) >= 0]
     if isinstance(ty, tuple) and ty[0] in ("seq", "list"):
         S_ = S.seq_sort(S.sort_of(ty[1]))
         return seq_inv(S_.len(t), S_.arr(t), ty[1])
